@@ -2030,7 +2030,7 @@ Definition hs0 (mine : chan_end) : gmap N handle :=
 
 Lemma cnt_hs0 mine e : cnt (tok_handle e) (hs0 mine) = if bool_decide (mine = e) then 1%nat else 0%nat.
 Proof.
-  unfold hs0. rewrite <- insert_union_singleton_l.
+  unfold hs0.
   rewrite cnt_insert_fresh by (rewrite lookup_singleton_ne by discriminate; reflexivity).
   rewrite <- insert_empty, cnt_insert_fresh by apply lookup_empty. rewrite cnt_empty.
   unfold tok_handle. cbn. rewrite andb_false_r, andb_true_r. destruct (bool_decide (mine = e)); reflexivity.
@@ -2062,17 +2062,19 @@ Proof.
   - intros q1 n q2 H. destruct q1; discriminate.
 Qed.
 
-Lemma LI_created mine :
-  LI (cl0 <| c_core := core_created mine |> <| c_nexth := 2 |>) (core_created mine).
+Definition cl_created (mine : chan_end) : cl :=
+  {| c_core := core_created mine; c_next := 0; c_nexth := 2; c_q := []; c_up := []; c_down := [] |}.
+
+Lemma LI_created mine : LI (cl_created mine) (core_created mine).
 Proof.
   assert (Hpc : k_pclose (core_created mine) = ∅) by (destruct mine; reflexivity).
   assert (Hpk : k_pclaim (core_created mine) = ∅) by (destruct mine; reflexivity).
   assert (Hh : k_handles (core_created mine) = hs0 mine) by (destruct mine; reflexivity).
-  constructor; cbn; rewrite ?Hpc, ?Hpk.
+  constructor; unfold cl_created; cbn [c_core c_next c_nexth c_q c_up c_down cdrain]; rewrite ?Hpc, ?Hpk.
   - reflexivity.
   - apply AI_created.
-  - intros hid [h H]. cbn in H. rewrite Hh in H. unfold hs0 in H.
-    rewrite <- insert_union_singleton_l in H. apply lookup_insert_Some in H. destruct H as [[<- _]|[_ H]]; [lia|].
+  - intros hid [h H]. cbn [c_core c_nexth] in *. rewrite Hh in H. unfold hs0 in H.
+    apply lookup_insert_Some in H. destruct H as [[<- _]|[_ H]]; [lia|].
     apply lookup_singleton_Some in H. destruct H as [<- _]. lia.
   - intros s e b H. rewrite lookup_empty in H. discriminate.
   - intros s e H. inversion H.
@@ -2096,7 +2098,7 @@ Proof.
   assert (Hother : end_st ch (other_end mine) = Unclaimed) by (destruct ec; reflexivity).
   intros c' x' Hx'. cbn in Hx'. fold mine in Hx'. destruct (decide (c' = c0)) as [->|Hne].
   - rewrite lookup_insert in Hx'. inversion Hx'; subst x'; clear Hx'.
-    exists (core_created mine). split; [apply LI_created|]. cbn. fold ch.
+    exists (core_created mine). split; [exact (LI_created mine)|]. cbn. fold ch.
     intros e _. rewrite tokens_created, ent_created. destruct (end_cases mine e) as [-> | ->].
     + destruct Hmine as [cap Hm]. rewrite Hm, bool_decide_eq_true_2 by reflexivity. split; [|discriminate].
       intros cap' _. rewrite Hother. split; reflexivity.
